@@ -23,7 +23,31 @@ PRIMS["mutex"] = {
     "thorough": {"depth": 9, "random_count": 60000, "random_len": 50},
 }
 
+PRIMS["rwlock"] = {
+    "new_lines": ["new rwlock"],
+    "quick": {"depth": 6, "random_count": 3000, "random_len": 50},
+    "thorough": {"depth": 8, "random_count": 60000, "random_len": 60},
+}
+
 PROPS = {
+    "C02": {
+        "modules": ["ALock.Props.C02"],
+        "prims": ["rwlock"],
+        "fields": ["out", "words"],
+        "monitors": ["C02"],
+        "assumptions": ["poll-granular theorem: every call/poll is atomic",
+                        "readers-overflow aborts (> isize::MAX readers) are outside the model"],
+        "partial": ["interleavings of atomic operations", "happens-before clauses (memory-ordering table)"],
+    },
+    "C11": {
+        "modules": ["ALock.Props.C11"],
+        "prims": ["rwlock"],
+        "fields": ["out", "words"],
+        "monitors": ["C11", "C02"],
+        "assumptions": ["poll-granular theorem: every call/poll is atomic",
+                        "'the value changes only through the converting task' is read as: only the holder of the slot can obtain write access (C02 + C11_slot)"],
+        "partial": ["interleavings of atomic operations"],
+    },
     "C01": {
         "modules": ["ALock.Props.C01"],
         "prims": ["mutex"],
